@@ -10,7 +10,9 @@ Mirrors `core/circuitbreaker/circuit_breaker.go`, `slot.go`, `stat_slot.go`:
 * `checkPass`    = `checkPass` in `slot.go` (breakers of the resource in rule order, early exit)
 * `rollback`     = the `WhenExit` hook registered by `fromOpenToHalfOpen`, run by `Entry.Exit` of a
                    *blocked* entry: `HalfOpen → Open`, deadline and probe counter untouched
-* `completeAll`  = `MetricStatSlot.OnCompleted`
+* `completeAll`  = `MetricStatSlot.OnCompleted`: **one** `OnRequestComplete` per breaker per completed entry —
+                   `ctx.Input.BatchCount` (`WithBatchCount(n)`, any `n` incl. 0) is *not* read by the breaker
+                   slots; `Op.entry` carries it and `step` ignores it
 
 The machine is written **once**, generic in the store `W` of the per-breaker sliding counters and its two
 operations (`WinOps`): the driver's `model` mode instantiates it with the code-shaped leap array
@@ -184,7 +186,10 @@ structure Sys (W : Type) where
 
 inductive Op
   | clock (t : Nat)
-  | entry (id : Nat) (res : String)
+  /-- `api.Entry(res, WithBatchCount(batch))`; the batch count is carried so that histories can vary it,
+      but nothing in the breaker machine reads it: one entry is one completion whatever its batch
+      (`Sentinel.C03.batch_irrelevant`) -/
+  | entry (id : Nat) (res : String) (batch : Nat := 1)
   | exit (id : Nat) (err : Bool)
 deriving DecidableEq, Repr
 
@@ -217,7 +222,7 @@ def doExit (ops : Rule → WinOps W) (s : Sys W) (id : Nat) (err : Bool) : Sys W
 
 def step (ops : Rule → WinOps W) (s : Sys W) : Op → Sys W × Out
   | .clock t => ({ s with now := t }, {})
-  | .entry id res => doEntry s id res
+  | .entry id res _ => doEntry s id res
   | .exit id err => doExit ops s id err
 
 /-- outputs of a whole history -/
